@@ -115,6 +115,86 @@ def translate_function(fdef, known, prefix='py_'):
     return name, out, 'plain'
 
 
+CMPOPS = {ast.Lt: 'Z.ltb', ast.LtE: 'Z.leb', ast.Gt: 'Z.gtb', ast.GtE: 'Z.geb', ast.Eq: 'Z.eqb'}
+
+
+class GTr(Tr):
+    """expressions of guarded functions: adds abs(), %, comparisons"""
+
+    def expr(self, e):
+        if isinstance(e, ast.Call) and isinstance(e.func, ast.Name) and e.func.id == 'abs' \
+                and len(e.args) == 1 and not e.keywords:
+            return '(Z.abs %s)' % self.expr(e.args[0])
+        return super().expr(e)
+
+    def cond(self, t):
+        if isinstance(t, ast.Compare) and len(t.ops) == 1 and len(t.comparators) == 1:
+            a, b = self.expr(t.left), self.expr(t.comparators[0])
+            op = type(t.ops[0])
+            if op in CMPOPS:
+                return '(%s %s %s)' % (CMPOPS[op], a, b)
+            if op is ast.NotEq:
+                return '(negb (Z.eqb %s %s))' % (a, b)
+        if isinstance(t, ast.BoolOp):
+            f = 'orb' if isinstance(t.op, ast.Or) else 'andb'
+            parts = [self.cond(v) for v in t.values]
+            out = parts[0]
+            for q in parts[1:]:
+                out = '(%s %s %s)' % (f, out, q)
+            return out
+        raise Unsupported('condition ' + ast.dump(t)[:100])
+
+
+def translate_guarded(fdef, prefix='py_'):
+    """function whose body is a sequence of `if cond: raise E(...)`, simple assignments and
+    a final `return e` / `return e1, e2` -> option-valued Gallina (None = raises)"""
+    tr = GTr({})
+    args = [a.arg for a in fdef.args.args]
+    if fdef.args.vararg or fdef.args.kwarg or fdef.args.kwonlyargs or fdef.args.defaults:
+        raise Unsupported('signature')
+    body = list(fdef.body)
+    if body and isinstance(body[0], ast.Expr) and isinstance(body[0].value, ast.Constant) \
+            and isinstance(body[0].value.value, str):
+        body = body[1:]
+    if not body or not isinstance(body[-1], ast.Return) or body[-1].value is None:
+        raise Unsupported('no final return')
+    rv = body[-1].value
+    if isinstance(rv, ast.Tuple):
+        ret = '(' + ', '.join(tr.expr(x) for x in rv.elts) + ')'
+        rty = ' * '.join('Z' for _ in rv.elts)
+    else:
+        ret = tr.expr(rv)
+        rty = 'Z'
+    s = 'Some %s' % ret
+    for st in reversed(body[:-1]):
+        if isinstance(st, ast.If) and not st.orelse and len(st.body) == 1 and isinstance(st.body[0], ast.Raise):
+            s = 'if %s then None else %s' % (tr.cond(st.test), s)
+        elif isinstance(st, ast.Assign) and len(st.targets) == 1 and isinstance(st.targets[0], ast.Name):
+            s = 'let v_%s := %s in %s' % (st.targets[0].id, tr.expr(st.value), s)
+        else:
+            raise Unsupported('statement ' + type(st).__name__)
+    name = prefix + fdef.name
+    sig = ' '.join('(v_%s : Z)' % a for a in args)
+    return name, 'Definition %s %s : option (%s) := %s.\n' % (name, sig, rty, s)
+
+
+def translate_guarded_module(src, wanted, prefix='py_'):
+    tree = ast.parse(src)
+    fdefs = {n.name: n for n in tree.body if isinstance(n, ast.FunctionDef)}
+    chunks, status = [], {}
+    for fn in wanted:
+        if fn not in fdefs:
+            status[fn] = 'unsupported: function not found'
+            continue
+        try:
+            name, text = translate_guarded(fdefs[fn], prefix)
+            chunks.append(text)
+            status[fn] = 'guarded'
+        except Unsupported as e:
+            status[fn] = 'unsupported: %s' % e
+    return ''.join(chunks), status
+
+
 def translate_module(src, wanted, prefix='py_'):
     """Returns (coq_text, status) where status maps function -> 'mask'|'plain'|'unsupported: ...'"""
     tree = ast.parse(src)
